@@ -393,3 +393,14 @@ PROPS["C18"]["thorough"]["cases"] = 40000000   # was 6000000
 PROPS["C02"]["thorough"]["cases"] = 10000000   # was 3000000
 PROPS["C08"]["thorough"]["cases"] = 15000000   # was 5000000
 PROPS["C16"]["thorough"]["cases"] = 30000000   # was 8000000
+
+# configuration rows added after round 3 of the seeded changes showed that mistakes hide behind macros
+PROPS["C11"]["quick"].update({"configs": ["default", "dial1111"], "per_config": {"dial1111": {"cases": 200000}}})
+PROPS["C11"]["thorough"].update({"configs": ["default", "dial1111"], "per_config": {"dial1111": {"cases": 2000000}}})
+PROPS["C16"]["quick"].update({"configs": ["default", "arduino", "dial1111"], "per_config": {"dial1111": {"cases": 200000}}})
+PROPS["C16"]["thorough"].update({"configs": ["default", "arduino", "dial1111"], "per_config": {"dial1111": {"cases": 4000000}}})
+# (USE_LONG_LONG=0 is not added: on this LP64 host `long` is 64 bits wide while the storage is 32, an artefact no real target has)
+PROPS["C13"]["quick"].update({"configs": ["default", "num01"], "per_config": {"num01": {"cases": 500000, "sweep": False}}})
+PROPS["C13"]["thorough"].update({"configs": ["default", "num01"], "per_config": {"num01": {"cases": 5000000, "sweep": False}}})
+PROPS["C02"]["quick"].update({"configs": ["default", "arduino", "num01"], "per_config": {"num01": {"cases": 60000}}})
+PROPS["C08"]["quick"].update({"configs": ["default", "arduino", "num01"], "per_config": {"num01": {"cases": 80000, "sweep": False}}})
